@@ -281,6 +281,7 @@ class Calibrator(BaseSeedable):
             series_samp,
             batch_num_samp,
             method_samp,
+            samplers_id_table,
         ) = load_calibrator_state(checkpoint_path, cls.STATE_VERSION)
 
         _assert(
@@ -314,6 +315,11 @@ class Calibrator(BaseSeedable):
         calibrator.series_samp = series_samp
         calibrator.batch_num_samp = batch_num_samp
         calibrator.method_samp = method_samp
+
+        # the ids in method_samp refer to the table of the saved calibrator, which may also list
+        # samplers that have been replaced since
+        if samplers_id_table is not None:
+            calibrator.samplers_id_table = dict(samplers_id_table)
 
         # reset the random number generator state
         calibrator.random_generator.bit_generator.state = random_generator_state
@@ -523,6 +529,7 @@ class Calibrator(BaseSeedable):
             self.series_samp,
             self.batch_num_samp,
             self.method_samp,
+            self.samplers_id_table,
         )
 
         t_end = time.time()
